@@ -31,13 +31,14 @@ if ! git apply --check "$src/patch.diff" 2>/tmp/confirm/$label.applyerr; then
 else git apply "$src/patch.diff"; res "$out" applies true; fi
 if go build ./... 2>/tmp/confirm/$label.build && go test -count=1 -run '^$' ./... >/dev/null 2>>/tmp/confirm/$label.build; then res "$out" compiles true; else res "$out" compiles false; echo "$label: does not compile"; exit 1; fi
 # suite
-go test -vet=off -count=1 -timeout 25m ./... > /tmp/confirm/$label.suite 2>&1
+# isolated network namespace: pkg/client's e2e tests bind fixed ports that collide with other jobs on this machine
+unshare -rn bash -c 'ip link set lo up; go test -vet=off -count=1 -timeout 25m ./...' > /tmp/confirm/$label.suite 2>&1
 fails=$(grep -E '^--- FAIL|^FAIL\s' /tmp/confirm/$label.suite | grep -v 'TestDownloadEnsureModelCreatesDir' | grep -v 'pkg/embeddings' | grep -v '^FAIL$' | tr '\n' ';')
 # pkg/client's e2e tests bind a fixed port (19091): concurrent suites on this machine collide. Retry that package alone.
 if [ -n "$fails" ] && ! grep -E '^FAIL\s' /tmp/confirm/$label.suite | grep -v 'pkg/embeddings' | grep -qv 'pkg/client\s'; then
   for try in 1 2 3 4 5; do
     sleep $((RANDOM % 20))
-    if flock /tmp/confirm/port19091.lock go test -vet=off -count=1 ./pkg/client/ > /tmp/confirm/$label.suite.client 2>&1; then fails=""; break; fi
+    if unshare -rn bash -c 'ip link set lo up; go test -vet=off -count=1 ./pkg/client/' > /tmp/confirm/$label.suite.client 2>&1; then fails=""; break; fi
   done
 fi
 if [ -z "$fails" ]; then res "$out" suite_passes true; else res "$out" suite_passes false; res "$out" suite_fails "\"$fails\""; fi
@@ -54,9 +55,9 @@ for f,dst in m.get('demo_files',{}).items():
 open('/tmp/confirm/demo_cmd_%s'%os.path.basename(wt),'w').write(m['demo_cmd'])
 PY
 demo=$(cat /tmp/confirm/demo_cmd_$label | sed "s#/tmp/wt/C[0-9]*#$wt#g; s#go1.26.8#go#g")
-( cd "$wt" && timeout 900 bash -c "$demo" ) > /tmp/confirm/$label.demo_with 2>&1; with=$?
+( cd "$wt" && timeout 900 unshare -rn bash -c "ip link set lo up; $demo" ) > /tmp/confirm/$label.demo_with 2>&1; with=$?
 git apply -R "$src/patch.diff"
-( cd "$wt" && timeout 900 bash -c "$demo" ) > /tmp/confirm/$label.demo_without 2>&1; without=$?
+( cd "$wt" && timeout 900 unshare -rn bash -c "ip link set lo up; $demo" ) > /tmp/confirm/$label.demo_without 2>&1; without=$?
 res "$out" demo_exit_with_patch $with; res "$out" demo_exit_without_patch $without
 git apply "$src/patch.diff"
 # remove demo files so they are not analysed
